@@ -285,6 +285,8 @@ JOBS = [
          what='random_number_usage<T,R>() equals the raw draws of one generate_canonical call', props=['C10', 'C04']),
     dict(name='c05_native_roundtrip', kind='native-bounded', bounded=True, cpp='c05', obligation='C05.native_roundtrip', input_obligation='C05.native_roundtrip', reals=['float', 'double', 'long double'],
          what='write -> text -> read of mc_result, distribution parameters (regular names), plain/VEGAS/multi-channel checkpoints with nine standard engines on a fixed set of hard finite values, REAL templates', props=['C05', 'C03']),
+    dict(name='numeric_type_purity', kind='static-purity', units=['kernels', 'drivers', 'chkpt', 'mpidrv'],
+         props=['C09', 'C08', 'C07', 'C01', 'C02', 'C05', 'C13', 'C11', 'C14', 'C17', 'C06']),
     dict(name='ieee_facts', kind='lemma', source='lemmas/ieee_facts.c', real='double', thorough_reals=['float'],
          props=['C07', 'C09', 'C08', 'C17', 'C01', 'C02', 'C06'], timeout=dict(quick=240, thorough=1200)),
     dict(name='accumulate', functions=['accumulate'], entry='h_accumulate', enforce='accumulate', solvers=['cvc5', 'cadical'],
